@@ -193,7 +193,7 @@ pub fn run(cfg: &RunCfg) {
     if k < n {
       gen_case(seed, k, tier)
     } else if k < n + nj {
-      crate::props::jsr::gen_case(seed, k - n, crate::props::jsr::Flavour::Mixed)
+      crate::props::jsr::gen_case(seed, k - n, crate::props::jsr::Flavour::Closure)
     } else {
       crate::props::decl::gen_case(seed, k - n - nj)
     }
